@@ -338,28 +338,31 @@ Definition encoder_class : list (string * fclass) := [
 (* who may assign a setting.  encoder_duplicate assigns fields of the NEW object it has just created (nested
    trees); encoder_encode_tree and wbxml_encoder_encode_tree are the run functions that store values derived from
    the tree into setting fields — modelled explicitly below (enc_prologue); wbxml_encoder_encode_tree (flow mode)
-   saves and restores `lang` itself. *)
+   saves and restores `lang` itself; encoder_encode_tree_to_output / wbxml_encoder_encode_tree_to_wbxml / _to_xml
+   are where the repaired code (DEFECTS.md) puts the caller's values back (enc_encode_fixed). *)
 Definition encoder_setters : list (string * list string) := [
   ("lang", ["encoder_encode_tree"; "wbxml_encoder_create_real"; "wbxml_encoder_encode_tree"; "wbxml_encoder_set_lang";
-            "wbxml_encoder_encode_tree_to_wbxml"; "wbxml_encoder_encode_tree_to_xml"]);
+            "wbxml_encoder_encode_tree_to_wbxml"; "wbxml_encoder_encode_tree_to_xml"; "encoder_encode_tree_to_output"]);
   ("ignore_empty_text", ["encoder_duplicate"; "wbxml_encoder_create_real"; "wbxml_encoder_set_ignore_empty_text"]);
   ("remove_text_blanks", ["encoder_duplicate"; "wbxml_encoder_create_real"; "wbxml_encoder_set_remove_text_blanks"]);
   ("output_type", ["encoder_duplicate"; "wbxml_encoder_create_real"; "wbxml_encoder_set_output_type"]);
   ("xml_gen_type", ["encoder_duplicate"; "wbxml_encoder_create_real"; "wbxml_encoder_set_xml_gen_type"]);
   ("indent_delta", ["encoder_duplicate"; "wbxml_encoder_create_real"; "wbxml_encoder_set_indent"]);
   ("use_strtbl", ["encoder_duplicate"; "encoder_encode_tree"; "wbxml_encoder_create_real"; "wbxml_encoder_set_use_strtbl";
-                  "wbxml_encoder_encode_tree_to_wbxml"; "wbxml_encoder_encode_tree_to_xml"]);
+                  "wbxml_encoder_encode_tree_to_wbxml"; "wbxml_encoder_encode_tree_to_xml"; "encoder_encode_tree_to_output"]);
   ("xml_encode_header", ["encoder_duplicate"; "wbxml_encoder_create_real"]);
   ("produce_anonymous", ["wbxml_encoder_create_real"; "wbxml_encoder_set_produce_anonymous"]);
   ("wbxml_version", ["encoder_duplicate"; "wbxml_encoder_create_real"; "wbxml_encoder_set_wbxml_version"]);
   ("output_charset", ["encoder_encode_tree"; "wbxml_encoder_create_real"; "wbxml_encoder_set_output_charset";
-                      "wbxml_encoder_encode_tree_to_wbxml"; "wbxml_encoder_encode_tree_to_xml"]);
+                      "wbxml_encoder_encode_tree_to_wbxml"; "wbxml_encoder_encode_tree_to_xml"; "encoder_encode_tree_to_output"]);
   ("flow_mode", ["wbxml_encoder_create_real"; "wbxml_encoder_set_flow_mode"]);
   ("textual_publicid", ["wbxml_encoder_create_real"; "wbxml_encoder_set_text_public_id"])]%string.
 Definition encoder_reset_name : string := "wbxml_encoder_reset".
-(* run-state fields wbxml_encoder_reset does not assign in the unchanged tree (defect D14; the repaired reset
-   assigns them, and the obligation accepts both) *)
-Definition encoder_known_unreset : list string := ["indent"; "current_text_parent"]%string.
+(* run-state fields wbxml_encoder_reset does not assign: indent and current_text_parent in the unchanged tree
+   (defect D14; the repaired reset assigns them, the obligation accepts both); strstbl in the repaired tree (the
+   list object is kept and emptied in place instead of being destroyed and set to NULL).  What reset really
+   leaves in these fields is compared with enc_reset / enc_reset_fixed by the struct-dump tie on every run. *)
+Definition encoder_known_unreset : list string := ["indent"; "current_text_parent"; "strstbl"]%string.
 
 Definition OUT_WBXML : N := 0.
 Definition OUT_XML : N := 1.
